@@ -133,28 +133,7 @@ theorem apply_final_exact (s : Syncer) (st : KState) (hint : AMap SvcKey Nat) (f
   rw [apply_dp, apply_phases, schedule_ok _ _ _ hok']
   exact fullWrites_exact _ _
 
-/-! ### What a frontend lists (partial: the block of ONE service right after it is written)
-
-That later services of the same sync do not disturb the block needs pairwise distinct service IDs
-and pairwise distinct frontend keys ("we assume that k8s provide us with no duplicities",
-syncer.go); that composition is NOT proved here — it is covered by the correspondence run and the
-harness's final oracle on the real maps.  Hence the `_partial` suffix. -/
-
-/-- right after `applySvc` wrote a service (ID `id`, endpoints `eps`): its cluster-IP frontend
-carries `id`, the number of ready endpoints and of local ready endpoints, and backend `i` is the
-`i`-th ready endpoint in the order local first. -/
-theorem service_block_exact_partial (b : Bld) (skey : SvcKey) (svc : Svc) (id : Nat) (eps : List Ep) :
-    (∃ v, (applySvcWith b skey svc id eps).des.F.get (zeroKey svc) = some v ∧ v.id = id ∧
-      v.count = (readyOrdered eps).length ∧ v.lcl = localReady eps ∧ v.aff = affOf svc) ∧
-    ∀ i (hi : i < (readyOrdered eps).length),
-      (applySvcWith b skey svc id eps).des.B.get ⟨id, i⟩ = some ⟨(readyOrdered eps)[i].ip, (readyOrdered eps)[i].port⟩ := by
-  unfold applySvcWith updateService
-  constructor
-  · cases skey.extra <;> simp [writeSvc, AMap.get_set_self]
-  · intro i hi
-    have := writeBackends_get b.des.B id 0 (readyOrdered eps) i hi
-    simp only [Nat.zero_add] at this
-    cases skey.extra <;> simpa [writeSvc] using this
+/-! ### `readyOrdered`: exactly the ready endpoints, local ones first -/
 
 theorem mem_readyOrdered (eps : List Ep) (e : Ep) : e ∈ readyOrdered eps ↔ e ∈ eps ∧ e.ready = true := by
   simp only [readyOrdered, List.mem_append, List.mem_filter, Bool.and_eq_true, Bool.not_eq_true']
@@ -493,6 +472,39 @@ theorem synced_cluster_ip_frontend_exact' (s : Syncer) (hg : GoodSyncer s) (st :
   exact synced_cluster_ip_frontend_exact s st hint fp hok sname svc hm hF
     (calls_ids_nodup (prepared s st) (prepared_wf s hg st) st hint hnames ⟨hnd, fun i hi => (hrange i hi).1⟩)
 
+/-! ### Nothing stale in the desired maps (the ⊆ direction of "exactly") -/
+
+/-- **no stale frontend in the desired maps**: every frontend key of the maps a sync builds belongs to a
+service of the current state (`KeyOf`). -/
+theorem desired_frontends_only_current (s : Syncer) (st : KState) (hint : AMap SvcKey Nat) (k : FKey) (v : FVal)
+    (h : (buildDesired s st hint).des.F.get k = some v) : ∃ p ∈ st.svcs, KeyOf p.2 k := by
+  have fk : FK (buildDesired s st hint) := buildDesired_pres FK_pres s st hint (fun k hk => by simp [AMap.get] at hk)
+  obtain ⟨w, hw, he⟩ := fk k (by simp [h])
+  exact he ▸ QO.buildDesired s st hint w hw
+
+/-- **no stale backend in the desired maps**: if no frontend key is `Set` twice in the sync, every backend
+entry `(id, i)` of the maps it builds is counted by a frontend of those maps (`i < count`). -/
+theorem desired_backends_only_current (s : Syncer) (st : KState) (hint : AMap SvcKey Nat)
+    (hF : ((buildDesired s st hint).fwrites.map (·.1)).Nodup) (k : BKey) (bv : BVal)
+    (h : (buildDesired s st hint).des.B.get k = some bv) :
+    ∃ fk v, (buildDesired s st hint).des.F.get fk = some v ∧ v.id = k.id ∧ k.idx < v.count := by
+  have bk : BK (buildDesired s st hint) := buildDesired_pres BK_pres s st hint (fun k hk => by simp [AMap.get] at hk)
+  have cf : CF (buildDesired s st hint) := Pres2.buildDesired CF_pres2 s st hint (fun _ h => by simp at h)
+  have hf : FOK (buildDesired s st hint) := buildDesired_pres FOK_pres s st hint (fun _ kv h => by simp at h)
+  obtain ⟨c, hc, h1, h2⟩ := bk k (by simp [h])
+  obtain ⟨w, hw, h3, h4⟩ := cf c hc
+  exact ⟨w.1, w.2, hf hF w hw, by rw [h3, h1], by rw [h4]; exact h2⟩
+
+/-- **`desired_only_current`**: the maps a sync builds — and hence, by `apply_final_exact`, the kernel maps
+after a completed sync — contain only frontends of current services, and (if no frontend key is `Set`
+twice) only backends counted by one of those frontends. -/
+theorem desired_only_current (s : Syncer) (st : KState) (hint : AMap SvcKey Nat) :
+    (∀ k v, (buildDesired s st hint).des.F.get k = some v → ∃ p ∈ st.svcs, KeyOf p.2 k) ∧
+    (((buildDesired s st hint).fwrites.map (·.1)).Nodup → ∀ k bv, (buildDesired s st hint).des.B.get k = some bv →
+      ∃ fk v, (buildDesired s st hint).des.F.get fk = some v ∧ v.id = k.id ∧ k.idx < v.count) :=
+  ⟨fun k v h => desired_frontends_only_current s st hint k v h,
+   fun hF k bv h => desired_backends_only_current s st hint hF k bv h⟩
+
 /-! ### Traffic-policy flag of the cluster-IP frontend -/
 
 /-- the flags `updateService` + `writeSvc` put on a cluster-IP frontend: internal traffic policy
@@ -603,6 +615,11 @@ example : primFlags { exSvc with intLocal := true } = 2 ∧ primFlags exSvc = 0 
 
 /-- a restarted syncer over arbitrary map contents is good. -/
 example : GoodSyncer (Syncer.new [7] [] exDP) := goodSyncer_new _ _ _
+
+/-- `KeyOf` is not trivially true: a key with a foreign address does not belong to the example service. -/
+example : KeyOf exSvc ⟨20, 80, 6, 0, 0⟩ ∧ ¬ KeyOf exSvc ⟨99, 80, 6, 0, 0⟩ := by
+  refine ⟨⟨rfl, Or.inl ⟨rfl, Or.inr (Or.inl (by decide))⟩⟩, ?_⟩
+  rintro ⟨_, ⟨_, h | h | h⟩ | ⟨_, h⟩⟩ <;> revert h <;> decide
 
 /-- a reachable mid-update state (one write of phase 1 done). -/
 example : ∃ σ, Reach ⟨[], []⟩ exDP σ ∧ σ.dp.F.length = 1 :=
